@@ -275,6 +275,7 @@ func RunC11(c *Ctx, r *Report) {
 	c.tvValueOnlyUnderTVRule(r, prefix+"tv-value-only-under-tv")
 	c.transformWireRule(r, prefix)
 	c.typedNilRule(r, prefix+"no-typed-nil")
+	c.proposalFromCurrentStateRule(r, prefix+"proposal-from-current-state")
 }
 
 // typedNilRule: "unknown identifiers ... yield 'unsupported'" is observed by callers as a nil interface. A
